@@ -801,7 +801,7 @@ impl World {
                     for k in 0..3u32 {
                         let g = gc_arena::Gc::new(
                             mc,
-                            Node { id: 600 + k, pat: 0, _tok: Tok(600 + k), s: [gc_arena::Lock::new(None), gc_arena::Lock::new(None)], w: gc_arena::Lock::new(None), leaf: gc_arena::Lock::new(None), wl: gc_arena::Lock::new(None), cell: gc_arena::Lock::new(None) },
+                            Node { id: 600 + k, pat: 0, _tok: Tok(600 + k), s: [gc_arena::Lock::new(None), gc_arena::Lock::new(None)], w: gc_arena::Lock::new(None), dw: Box::new(WSlot(gc_arena::Lock::new(None))), leaf: gc_arena::Lock::new(None), wl: gc_arena::Lock::new(None), cell: gc_arena::Lock::new(None) },
                         );
                         fresh.push(s.stash::<gc_arena::Rootable![Node<'_>]>(mc, g));
                     }
@@ -891,7 +891,7 @@ fn c03_body<'gc>(w: &World, mc: &gc_arena::Mutation<'gc>, m: &[Option<Obj<'gc>>]
     let mut ups = vec![];
     for (i, o) in m.iter().enumerate() {
         if let Some(Obj::Node(g)) = o {
-            if let Some(wk) = g.w.get() {
+            if let Some(wk) = g.wk() {
                 if let Some(u) = wk.upgrade(mc) {
                     ups.push((w.sh.objs[i].w.unwrap(), u));
                 }
